@@ -145,7 +145,16 @@ func suiteC18(r *Run) {
 				r.Violate(sig, "yields, for every message, a copy", sprintf("Clone(%s %s): err=%v panic=%s", srcRepr, k.name, err, trunc(pan, 80)), c, ans)
 				continue
 			}
-			checkCopy(r, ad.name, "clone", c, src, out.(protov1.Message), snap, bytesOf)
+			outMsg, isMsg := out.(protov1.Message)
+			if !isMsg || reflect.TypeOf(out) != reflect.TypeOf(src) {
+				sig := "cloner/" + ad.name + "/clone-not-same-kind-of-message"
+				if srcRepr == "d" {
+					sig = "cloner/" + ad.name + "/dynamic/clone-not-same-kind-of-message"
+				}
+				r.Violate(sig, "yields, for every message, a copy that is equal to the source", sprintf("Clone(%s %s, a %T) returned a %T (usable as a protobuf message: %v)", srcRepr, k.name, src, out, isMsg), c, fmt.Sprintf("%T", out))
+				continue
+			}
+			checkCopy(r, ad.name, "clone", c, src, outMsg, snap, bytesOf)
 		case 1, 2: // copy into fresh / pre-populated destination of the same type
 			dst := k.zero()
 			dstRepr := "g"
